@@ -94,7 +94,19 @@ func effErrName(err error) string {
 		return "none"
 	}
 	if pe, ok := err.(interface{ Panic() any }); ok {
-		return "panic:" + fmt.Sprint(pe.Panic())
+		// the panic value itself must be exposed: same dynamic type, same value (for errors: the same error value)
+		switch x := pe.Panic().(type) {
+		case string:
+			return "panic:s:" + x
+		case int:
+			return fmt.Sprintf("panic:i:%d", x)
+		case error:
+			if x == effErrVal {
+				return "panic:e:errval"
+			}
+			return "panic:e:?"
+		}
+		return "panic:?"
 	}
 	return "?"
 }
@@ -104,10 +116,13 @@ func effConst(ok bool, s string) string {
 }
 func effPanicValue(pv string) any {
 	switch pv {
-	case "7":
+	case "i:7":
 		return 7
-	case "errval":
+	case "e:errval":
 		return effErrVal
+	}
+	if len(pv) > 2 && pv[:2] == "s:" {
+		return pv[2:]
 	}
 	return pv
 }
@@ -404,7 +419,7 @@ func randEff(r *rand.Rand, monad string, depth int, id *int) *EProg {
 			}
 		default:
 			if monad == "try" && r.Intn(3) == 0 {
-				p = &EProg{K: "panic", Id: next(), Mode: []string{"panic", "ok", "err"}[r.Intn(3)], Pv: []string{"boom", "7", "errval"}[r.Intn(3)]}
+				p = &EProg{K: "panic", Id: next(), Mode: []string{"panic", "ok", "err"}[r.Intn(3)], Pv: []string{"s:boom", "i:7", "e:errval"}[r.Intn(3)]}
 			} else {
 				p = &EProg{K: "rec", Arg: sub(), Kk: &EK{Id: next(), C: effConts[r.Intn(len(effConts))]}}
 			}
